@@ -518,6 +518,16 @@ class Bits:
         else:
             raise TypeError(f"Cannot initialise bitstring from type '{type(s)}'.")
 
+    @staticmethod
+    def _validate_window(offset: int, length: Optional[int], available: int) -> None:
+        """Check that an offset and optional length select bits inside a source of 'available' bits."""
+        if offset < 0:
+            raise bitstring.CreationError(f"The offset cannot be negative (got {offset}).")
+        if length is not None and length < 0:
+            raise bitstring.CreationError(f"The length cannot be negative (got {length}).")
+        if offset + (0 if length is None else length) > available:
+            raise bitstring.CreationError(f"Not enough data present. Need {offset + (0 if length is None else length)} bits, have {available}.")
+
     def _setauto(self, s: BitsType, length: Optional[int], offset: Optional[int], /) -> None:
         """Set bitstring from a bitstring, file, bool, array, iterable or string."""
         # As s can be so many different things it's important to do the checks
@@ -528,6 +538,7 @@ class Bits:
             offset = 0
 
         if isinstance(s, io.BytesIO):
+            self._validate_window(offset, length, s.seek(0, 2) * 8)
             if length is None:
                 length = s.seek(0, 2) * 8 - offset
             byteoffset, offset = divmod(offset, 8)
@@ -553,6 +564,7 @@ class Bits:
             if offset is None:
                 offset = 0
             m = mmap.mmap(source.fileno(), 0, access=mmap.ACCESS_READ)
+            self._validate_window(offset, length, len(m) * 8)
             if offset == 0:
                 self._filename = source.name
                 self._bitstore = BitStore.frombuffer(m, length=length)
@@ -571,8 +583,7 @@ class Bits:
     def _setbitarray(self, ba: bitarray.bitarray, length: Optional[int], offset: Optional[int]) -> None:
         if offset is None:
             offset = 0
-        if offset > len(ba):
-            raise bitstring.CreationError(f"Offset of {offset} too large for bitarray of length {len(ba)}.")
+        self._validate_window(offset, length, len(ba))
         if length is None:
             self._bitstore = BitStore(ba[offset:])
         else:
@@ -624,6 +635,7 @@ class Bits:
         data = bytearray(data)
         if offset is None:
             offset = 0
+        self._validate_window(offset, length, len(data) * 8)
         if length is None:
             # Use to the end of the data
             length = len(data) * 8 - offset
